@@ -184,13 +184,10 @@ _TMP = []
 
 
 def _tmp_root():
-    import atexit, os, shutil, tempfile
+    """a directory name that is stable within this process (errors carry their source path); created and removed around each use"""
+    import os, tempfile
 
-    if not _TMP or _TMP[0][0] != os.getpid():
-        d = tempfile.mkdtemp(prefix=f"c07root_{os.getpid()}_")
-        _TMP[:] = [(os.getpid(), d)]
-        atexit.register(shutil.rmtree, d, True)
-    return _TMP[0][1]
+    return os.path.join(tempfile.gettempdir(), f"c07root_{os.getpid()}")
 
 
 def judge(res, name, kind, doc, devs, via):
@@ -214,15 +211,15 @@ def judge(res, name, kind, doc, devs, via):
             from pathlib import Path
 
             tmp = os.path.join(_tmp_root(), "ruleset")  # the same path for the strict and the collecting run: errors carry their source
-            shutil.rmtree(tmp, ignore_errors=True)
-            os.mkdir(tmp)
+            shutil.rmtree(_tmp_root(), ignore_errors=True)
+            os.makedirs(tmp)
             try:
                 for i, x in enumerate(d if isinstance(d, list) else [d]):
                     with open(os.path.join(tmp, f"{i:02d}.yml"), "w") as fh:
                         fh.write(yaml.safe_dump(x, sort_keys=False))
                 return SigmaCollection.load_ruleset([Path(tmp)], collect_errors=collect_errors)
             finally:
-                shutil.rmtree(tmp, ignore_errors=True)
+                shutil.rmtree(_tmp_root(), ignore_errors=True)
     else:
         def load(d, collect_errors=False):
             text = yaml.safe_dump_all(d if isinstance(d, list) else [d], sort_keys=False)
